@@ -492,6 +492,14 @@ def check_big(case):
     uni, vs, ls = build_big(case["shape"], case["n"], case["edgecls"])
     Vertex.NEIGHBOR_CACHING = bool(case["flag"])
     old = sys.getrecursionlimit()
+    if case["flag"] and case["extra"] % 2:
+        # warm neighbor caches keyed by filter objects that themselves HOLD a vertex of this (deep / large) graph
+        import functools
+
+        from eglib import battery
+
+        for k, flt in ((0, functools.partial(battery.f_anchor, vs[-1])), (len(vs) // 2, battery.AnchorFilter(vs[0]).accept), (len(vs) - 1, functools.partial(battery.f_anchor, vs[0]))):
+            helpers.neighbors(vs[k], 1, 1, flt)
     form, order = canon.canonical(uni)
     try:
         limit = _depth() + case["extra"]
